@@ -1081,7 +1081,10 @@ impl<T: Transport, Env: UtpEnvironment> VirtualSocket<T, Env> {
                 return Ok(Default::default());
             }
             (Closed, _) => {
-                return Err(Error::BugRecvInClosed);
+                // We can get here if the last poll returned Pending (transport busy) after the state
+                // became Closed, e.g. before the final ACK went out, and the remote retransmitted.
+                trace!("received a packet in Closed state, ignoring");
+                return Ok(Default::default());
             }
             (SynReceived, _) => return Err(Error::BugUnexpectedPacketInSynReceived),
             (SynAckSent { .. }, ST_DATA | ST_STATE) => {
